@@ -18,9 +18,11 @@ mod native {
     pub fn pop(n: usize) -> Vec<u8> {
         VALS.with(|v| {
             let mut v = v.borrow_mut();
+            // A counterexample trace ends at the first violated check: symbolic
+            // values requested after that point are unconstrained; use zeros.
             let x = v.pop_front().unwrap_or_else(|| {
-                eprintln!("REPLAY-EXHAUSTED: harness asked for more symbolic values than recorded");
-                std::process::exit(3)
+                eprintln!("REPLAY-NOTE: value past the end of the recorded trace, using zeros");
+                vec![0u8; n]
             });
             if x.len() != n {
                 eprintln!("REPLAY-MISMATCH: recorded {} bytes, harness wants {}", x.len(), n);
@@ -94,11 +96,7 @@ macro_rules! arr {
         }
     )*};
 }
-arr!(0 => [], 1 => [0], 2 => [0 1], 3 => [0 1 2], 4 => [0 1 2 3], 5 => [0 1 2 3 4],
-     6 => [0 1 2 3 4 5], 7 => [0 1 2 3 4 5 6], 8 => [0 1 2 3 4 5 6 7],
-     12 => [0 1 2 3 4 5 6 7 8 9 10 11],
-     16 => [0 1 2 3 4 5 6 7 8 9 10 11 12 13 14 15],
-     29 => [0 1 2 3 4 5 6 7 8 9 10 11 12 13 14 15 16 17 18 19 20 21 22 23 24 25 26 27 28]);
+include!("sym_arr.rs");
 
 macro_rules! nz {
     ($($t:ty => $b:ty),*) => {$(
@@ -168,6 +166,42 @@ pub fn string_upto<const MAX: usize>() -> String {
     while i < n {
         s.push(char::sym());
         i += 1;
+    }
+    s
+}
+
+/// Vec of exactly N symbolic elements (concrete length: one harness instance per length).
+pub fn vec_n<T: Sym>(n: usize) -> Vec<T> {
+    let mut v = Vec::with_capacity(n);
+    let mut i = 0;
+    while i < n {
+        v.push(T::sym());
+        i += 1;
+    }
+    v
+}
+
+/// Symbolic char whose UTF-8 encoding is exactly `w` bytes long (w in 1..=4):
+/// every code point of that width class.
+pub fn char_w(w: usize) -> char {
+    let c: u32 = u32::sym();
+    match w {
+        1 => assume(c < 0x80),
+        2 => assume(c >= 0x80 && c < 0x800),
+        3 => assume(c >= 0x800 && c < 0x10000 && !(c >= 0xD800 && c <= 0xDFFF)),
+        _ => assume(c >= 0x10000 && c <= 0x10FFFF),
+    }
+    unsafe { char::from_u32_unchecked(c) }
+}
+
+/// String made of chars of the given UTF-8 width classes (0 = no char).
+pub fn string_w(w0: usize, w1: usize) -> String {
+    let mut s = String::with_capacity(8);
+    if w0 > 0 {
+        s.push(char_w(w0));
+    }
+    if w1 > 0 {
+        s.push(char_w(w1));
     }
     s
 }
